@@ -42,7 +42,7 @@ func c01Gen(t *rapid.T, r *h.Rec) c01Case {
 	default:
 		o := &synth.Opts{Avoid: av, OnExclude: onEx, OnClass: onCl,
 			Pointers: true, Unions: 1, RareBasics: true, Recursion: true, SubPkgs: true, Generics: true, Aliases: true,
-			Embedded: true, StdTypes: true, Spelling: true, TagVariety: true, EnumStress: true, FixedArrays: true, Maps: true, Times: true, MaxDecls: 12, EmbedUnionIface: true}
+			Embedded: true, StdTypes: true, Spelling: true, TagVariety: true, EnumStress: true, FixedArrays: true, Maps: true, Times: true, MaxDecls: 12, EmbedUnionIface: true, EmbedPtrNextToUnion: true}
 		if kind == "gounions" {
 			o.Unions = 2
 		}
